@@ -17,6 +17,8 @@ structure St where
   posChk : Chk := 0
   lastMax : Nat := 0
   dead : Bool := false
+  replica : Bool := false
+  appliedSince : Bool := false   -- a transaction file was applied since the last `state` line
 
 def parseHex64 (s : String) : Option UInt64 :=
   (unhex s).map fun b => b.foldl (fun a x => a * 256 + x.toUInt64) 0
@@ -81,6 +83,14 @@ def check (st : St) (op obs : String) : St × String :=
   if st.dead then (st, "ok") else
   match f with
   | ["case", _] => ({}, "ok")
+  | ["open", role] => ({ st with replica := role == "replica" }, "ok")
+  | "sapply" :: _ | "txapply" :: _ =>
+    if obs.startsWith "ok" then ({ st with appliedSince := true }, "ok") else (st, "ok")
+  | "dbw" :: _ | "jw" :: _ | "ww" :: _ =>
+    -- page, journal and WAL writes on a node without write authority: read-only permission error
+    if st.replica && !(obs == "readonly" || obs == "enoent") then (st, s!"FAIL write accepted on a node without write authority: {obs.take 60}") else (st, "ok")
+  | ["jc"] | ["drop"] | "import" :: _ =>
+    if st.replica && obs != "readonly" then (st, s!"FAIL {op.take 10} not refused on a node without write authority: {obs.take 60}") else (st, "ok")
   | "ref" :: ps :: _n :: rest =>
     let img : Img := match rest with
       | [l] => (l.splitOn ",").map fun c => if c == "0" then 0 else (parseHex64 c).getD 0
@@ -91,11 +101,13 @@ def check (st : St) (op obs : String) : St × String :=
     if (fieldOf ws "exit").isSome then (st, s!"FAIL the store exited on a healthy history: {obs}") else
     match (fieldOf ws "pos") >>= parsePos, (fieldOf ws "pageN") >>= String.toNat?, st.ref with
     | some (t, c), some n, some img =>
-      let st' := { st with posTxid := t, posChk := c }
-      if n ≠ img.length then (st', s!"FAIL database size {n} differs from what SQLite sees ({img.length} pages)")
+      let st' := { st with posTxid := t, posChk := c, appliedSince := false }
+      if st.replica && !st.appliedSince && (t ≠ st.posTxid || c ≠ st.posChk) && st.posTxid ≠ 0 then
+        (st', "FAIL position changed on a node without write authority although no transaction file was applied")
+      else if n ≠ img.length then (st', s!"FAIL database size {n} differs from what SQLite sees ({img.length} pages)")
       else if t ≠ 0 && c ≠ checksum (lockOf st.ps) img then (st', s!"FAIL reported checksum {hex16 c} differs from the from-scratch checksum {hex16 (checksum (lockOf st.ps) img)}")
       else if t < st.posTxid then (st', "FAIL position went backwards")
-      else if t > st.posTxid + 1 then (st', "FAIL position advanced by more than one transaction")
+      else if !st.replica && t > st.posTxid + 1 then (st', "FAIL position advanced by more than one transaction")
       else (st', "ok")
     | some (t, c), _, none => ({ st with posTxid := t, posChk := c }, "ok")
     | _, _, _ => (st, "ok")
